@@ -12,6 +12,7 @@ import JanetModel.Strtod.WrapFree
 import JanetModel.Strtod.Log2Cert
 import JanetModel.Strtod.Rational
 import JanetModel.Strtod.Accept
+import JanetModel.Strtod.Int32
 
 namespace JanetModel.Props.C13
 open JanetModel.Strtod JanetModel.Gen.Strtod
@@ -731,14 +732,57 @@ theorem convert_wrap_free (neg : Bool) (mant : BigNat) (base : Nat) (ex : Int) (
     (hi : MantInv mant) : convertW neg mant base ex = convert neg mant base ex :=
   convertW_eq neg mant base ex hb1 hb hi
 
-/-- ★ signed `int` intermediates that depend on the scanner's output: `mant->n * BIGNAT_NBIT + 16` (needs the length
-    limit: n ≤ len ≤ INT32_MAX/40), `base*base*base*base`; `_partial`: `shamt * BIGNAT_NBIT` and `2 * newn` in
-    `bignat_extra` on the negative branch are NOT covered (bounded only through the tiny short-circuit) -/
-theorem convert_int32_in_range_partial (str : List Nat) (base0 : Nat) (hb : base0 ≤ 36) (p : Parsed)
+/-- ★★ `convert_int32_in_range` (full; was `_partial`): every signed `int32_t` product in `convert` and in what it calls
+    stays below 2^31 for EVERY accepted literal (`parseNumber str base0 = some p`, radix parameter ≤ 36):
+      * `mant->n * BIGNAT_NBIT + 16` (needs the length limit n ≤ len ≤ INT32_MAX/40) and the radix powers
+        `base*base*base*base`, `base*base`;
+      * on the negative-exponent branch (`exponent = -a`, a > 0), whenever `convert` gets there — neither the zero
+        short-circuit nor the tiny short-circuit `exp2_approx < -1175` returned first —
+        `shamt * BIGNAT_NBIT` (`exponent2 -= …`, shamt = 5 + a/4), `2 * newn` in `bignat_extra` (reached through
+        `bignat_lshift_n(mant, shamt)`, newn = mant->n + shamt) and `BIGNAT_NBIT * n` in `bignat_extract` on the scaled
+        mantissa.
+    The exponent alone does NOT bound them (see the example below: "1e-2000000000" hands over a = 536870911, for which
+    shamt·31 ≥ 2^31); what does is the tiny short-circuit: when it does not fire, 2^52·a < (31·n + 1193)·2^(−le) with
+    (lm, le) the libm `log2(base)` entry (`not_tiny_exp_bound`), and the scanned mantissa is below B^len, B ≤ 2^c the radix
+    the digits were read in, so 31·n < c·len (`parseNumber_mant_bound`, `digits_lt_of_val_lt`; c = 4 for the hex-float form
+    where `convert` runs in radix 2).  Hence a ≤ 4·len + 1192 and 31·n < 6·len (`convert_neg_branch_bounds`), and
+    len ≤ 53687091 closes all three.  The clamp constants enter through `clamp_safe` (|exponent| < 2^31). -/
+theorem convert_int32_in_range (str : List Nat) (base0 : Nat) (hb : base0 ≤ 36) (p : Parsed)
     (h : parseNumber str base0 = some p) :
-    p.mant.digits.length * approxPerDigit + approxBias < 2 ^ 31 ∧ p.base * p.base * p.base * p.base < 2 ^ 31 ∧
-    p.base * p.base < 2 ^ 31 :=
-  convert_int32_in_range str base0 hb p h
+    (p.mant.digits.length * approxPerDigit + approxBias < 2 ^ 31 ∧ p.base * p.base * p.base * p.base < 2 ^ 31 ∧
+      p.base * p.base < 2 ^ 31) ∧
+    ∀ a : Nat, p.ex = -(a : Int) → 0 < a → ¬ (p.mant.digits.length = 0 ∧ p.mant.first = 0) →
+      ¬ (exp2Approx p.mant p.base p.ex < tinyThresh) →
+      (shamtBase + a / shamtDiv) * nbit < 2 ^ 31 ∧
+      capFactor * (p.mant.digits.length + (shamtBase + a / shamtDiv)) < 2 ^ 31 ∧
+      nbit * (scale p.mant p.base p.ex).1.digits.length < 2 ^ 31 := by
+  have hsat : SatOK := by
+    rcases clamp_safe str.length with ⟨h0, _⟩ | ⟨h1, _, h3⟩
+    · exact Or.inl h0
+    · exact Or.inr ⟨h1, h3⟩
+  exact convert_int32_in_range_full str base0 hb hsat p h
+
+/-- the bounds behind it, for every accepted literal that reaches the negative branch -/
+theorem convert_neg_branch_exponent_bound (str : List Nat) (base0 : Nat) (hb : base0 ≤ 36) (p : Parsed)
+    (h : parseNumber str base0 = some p) (a : Nat) (hex : p.ex = -(a : Int)) (ha0 : 0 < a)
+    (hnz : ¬ (p.mant.digits.length = 0 ∧ p.mant.first = 0))
+    (hnt : ¬ (exp2Approx p.mant p.base p.ex < tinyThresh)) :
+    a ≤ 4 * str.length + 1192 ∧ p.mant.digits.length * 31 < 6 * str.length := by
+  have hsat : SatOK := by
+    rcases clamp_safe str.length with ⟨h0, _⟩ | ⟨h1, _, h3⟩
+    · exact Or.inl h0
+    · exact Or.inr ⟨h1, h3⟩
+  exact convert_neg_branch_bounds str base0 hb hsat p h a hex ha0 hnz hnt
+
+/-- non-vacuity: "-1.25e-7" reaches the negative branch (a = 9, mantissa 125, tiny short-circuit not taken) … -/
+example : (parseNumber [45, 49, 46, 50, 53, 101, 45, 55] 0).map (fun p => (p.mant.val, p.base, p.ex)) = some (125, 10, -9) ∧
+    ¬ (exp2Approx ⟨125, []⟩ 10 (-9) < tinyThresh) := by decide +kernel
+/-- … and the short-circuit hypothesis is NECESSARY: "1e-2000000000" is accepted and hands `convert` the clamped exponent
+    −536870911, for which `shamt * BIGNAT_NBIT` would be 4160749561 ≥ 2^31 — the tiny short-circuit returns before it. -/
+example : (parseNumber [49, 101, 45, 50, 48, 48, 48, 48, 48, 48, 48, 48, 48] 0).map (fun p => (p.mant.val, p.base, p.ex))
+      = some (1, 10, -536870911) ∧
+    2 ^ 31 ≤ (shamtBase + 536870911 / shamtDiv) * nbit ∧ exp2Approx ⟨1, []⟩ 10 (-536870911) < tinyThresh := by
+  decide +kernel
 
 /-- non-vacuity: the C-typed model does reduce (a 64-bit carry WOULD wrap for a 33-bit factor), and on a real literal
     it runs through the same digits as the unbounded one -/
